@@ -275,8 +275,9 @@ def explore(ctx):
                         viol('unchanged-ok:balanced', f'balanced::{arg} reported OK without changing {text!r}', rep)
                     elif mode[0] in (0, 1, 2) and not is_subseq(out, text):
                         viol('bad-edit:balanced', f'balanced::{arg} on {text!r} state {st}: {out!r} is not a subsequence', rep)
-                    elif not (a <= pq[0] and pq[1] <= b):
-                        viol('non-local:balanced', f'balanced::{arg} on {text!r} state {st}: changed [{pq[0]},{pq[1]}) outside the matched span [{a},{b})', rep)
+                    elif not (out.startswith(text[:a]) and out.endswith(text[b:]) and len(out) >= a + len(text) - b):
+                        # (a common-prefix / common-suffix diff is ambiguous when the text after the span repeats its start)
+                        viol('non-local:balanced', f'balanced::{arg} on {text!r} state {st}: {out!r} changes text outside the matched span [{a},{b})', rep)
                     else:
                         want = {0: text[:a] + text[b:], 1: text[:a] + text[a + 1:b - 1] + text[b:], 2: text[:a + 1] + text[b - 1:],
                                 3: text[:a] + mode[1] + text[b:]}[mode[0]]
